@@ -195,7 +195,11 @@ func TextMenu() []spec.Batch {
 			fld("b", 2, tok("x", 1), tok("y", 1)),
 			stored(fld("c", 1, tok("t0", 1)), "c-one", 5, 6),
 		}},
-		{ID: "g2", Fields: []spec.Field{stored(fld("c", 1, tok("t1", 1)), "only c")}},
+		{ID: "g2", Fields: []spec.Field{
+			fld("a", 1<<31+3, tok("huge", 1)), // single-hit eligible after a merge, field length beyond 31 bits
+			fld("b", 0, tok("solo", 1)),       // single-hit eligible, field length 0 (norm bits 0)
+			stored(fld("c", 1, tok("t1", 1)), "only c"),
+		}},
 	}}
 	fz2 := spec.Batch{Docs: []spec.Doc{
 		{ID: "z0", Fields: []spec.Field{
@@ -219,7 +223,7 @@ func TextMenu() []spec.Batch {
 		c1,   // M5 disjoint from M1, long array positions, empty term
 		ab3,  // M6 three docs, a document without fields, duplicate id across segments (p0)
 		vb2,  // M7 same field list as M2/M3; frequencies, lengths and location values at varint boundaries
-		gap3, // M8 three fields: stored / indexed-only / stored (a gap between stored fields); seven stored values with array positions in one document
+		gap3, // M8 three fields: stored / indexed-only / stored (a gap between stored fields); seven stored values with array positions in one document; single-document terms in fields of length 0 and of length 2^31+3
 		fz2,  // M9 same field list as M2/M3: a frequency-0 term with locations in two documents of one chunk; a doc-value field without any token; stored values under a in one document and under b in another
 	}
 }
